@@ -6,6 +6,7 @@ use async_ctrlc::CtrlC;
 use async_std::channel::bounded;
 use async_std::channel::Receiver;
 use async_std::channel::Sender;
+use async_std::sync::Mutex;
 use async_std::task::spawn_local;
 use async_std::task::JoinHandle;
 use async_std::{
@@ -34,6 +35,12 @@ where
 {
     send_request: Sender<S::Req>,
     recv_response: Receiver<Result<Response<S::Res>, Error>>,
+    /// The number of requests that have been sent and whose replies
+    /// have not been taken from `recv_response` yet. It is only
+    /// non-zero between two calls of [`Sandbox::execute`] when the
+    /// future of an earlier call was dropped before its reply arrived.
+    /// Held locked for the whole of a call, so calls can't interleave.
+    outstanding: Mutex<usize>,
     join_handle: Cell<Option<JoinHandle<Result<(), Error>>>>,
     terminated: bool,
     _phantom: PhantomData<S>,
@@ -184,6 +191,7 @@ where
         Ok(Sandbox {
             send_request,
             recv_response,
+            outstanding: Mutex::new(0),
             join_handle: Cell::new(Some(join_handle)),
             terminated: false,
             _phantom: PhantomData,
@@ -213,12 +221,25 @@ where
             panic!("Sandbox::execute() called after terminated");
         }
 
+        let mut outstanding = self.outstanding.lock().await;
+
+        // If the future of an earlier call was dropped after its request
+        // had been sent, the reply to that request is still going to
+        // arrive. It must not be mistaken for the reply to this request.
+        while *outstanding > 0 {
+            let _abandoned = self.recv_response.recv().await?;
+            *outstanding -= 1;
+        }
+
         self.send_request
             .send(req)
             .await
             .map_err(|_| Error::Send("request to child"))?;
+        *outstanding += 1;
 
-        self.recv_response.recv().await?
+        let response = self.recv_response.recv().await?;
+        *outstanding -= 1;
+        response
     }
 }
 
@@ -232,6 +253,7 @@ where
             .debug_struct("Sandbox")
             .field("send_request", &self.send_request)
             .field("recv_response", &self.recv_response)
+            .field("outstanding", &self.outstanding)
             .field("terminated", &self.terminated)
             .field("join_handle", &handle)
             .finish();
